@@ -8,6 +8,7 @@ CONSTANTS
   MaxA = %d
   MaxB = %d
   MaxR = %d
+  MaxC = 1
   DoExport = %s
 INVARIANTS InvErrorIffValueCycle InvContent InvEachNode Export
 CHECK_DEADLOCK FALSE
@@ -71,7 +72,7 @@ def run_graphs(ctx, order, prop_assumptions, small=False):
         "traces_validated_against_impl": n - len(bad),
         "samples": [s for sm in sums + s2 for s in sm.get("samples", [])][:3],
         "evaluations": n,
-        "distinct_nontrivial": sum(1 for c in cases if any(e["m"] or e["v"]["t"] != "s" for k in ("A", "B", "R") for e in c["g"][k][(1 if k == "R" else 0):]))
+        "distinct_nontrivial": sum(1 for c in cases if any(e["m"] or e["v"]["t"] != "s" for k in ("A", "B", "C", "R") for e in c["g"][k][(1 if k == "R" else 0):]))
         + sum(s.get("events", 0) for s in s2) // 4,
         "rule": "TLC: every graph over two anchored mappings (<= MaxA / MaxB entries over keys x,y) and a root (<= MaxR entries over x,y,z); entry = "
                 "explicit key with scalar / alias / sequence of aliases, or `<<` with alias / sequences of aliases in both orders; aliases may "
